@@ -14,19 +14,23 @@ SPEC = {
          "configs": [c for c in CPU_OFF if c["name"] == "noavx2"], "tiers": ["quick"], "shards": {"quick": 1}},
         {"name": "c15k12na", "pkg": "./xof/k12", "run": "^TestZZC15(_00Selftest|Histories|Split2)$", "whitebox": True,
          "configs": [c for c in CPU_OFF if c["name"] == "noavx2"], "tiers": ["quick"], "shards": {"quick": 1}},
+        # shared-object concurrency (one ascon.Cipher / one Expander used by 8 goroutines, constructors from 8 goroutines) once more under
+        # the race detector; the results are compared with the reference in both builds (the plain one runs inside c15)
+        {"name": "c15conc", "pkg": "./zz_verif/c15", "run": "^TestC15(_00Selftest|Concurrent)$", "race": True, "shards": {"quick": 1, "thorough": 4}},
         # the same two binaries under -tags purego and GODEBUG=cpu.avx2=off (thorough tier only)
         {"name": "c15alt", "pkg": "./zz_verif/c15", "run": ".", "configs": _ALT, "tiers": ["thorough"], "shards": {"thorough": 4}},
         {"name": "c15k12alt", "pkg": "./xof/k12", "run": "^TestZZC15", "whitebox": True, "configs": _ALT, "tiers": ["thorough"], "shards": {"thorough": 4}},
     ],
     "rule": "case = one history (rapid t.Repeat over Write(chunk)/Read(n)/Clone/Reset/Sum on up to 4 live copies) of one of 14 hash/XOF entry points "
-            "(+ K12 with lanes 1/2/4 white-box), one (length, split) pair of the two-chunk sweep, one 1/2/4-way permutation input, one expander call, or one Ascon (key, nonce, ad, pt, dst, alteration) tuple. "
-            "non-trivial = a checked Read/Sum whose lineage has >= 2 write chunks with a rate or 8192-byte boundary inside (or at the end of) a chunk, or a Clone/Reset in its lineage; "
+            "(+ K12 with lanes 1/2/4 white-box), one (length, split) pair of the two-chunk sweep, one 1/2/4-way permutation input, one expander call, or one Ascon (key, nonce, ad, pt, dst, alteration) tuple; concurrent sub-check (also built with -race): 8 goroutines behind a barrier use ONE ascon.Cipher per mode (Seal, Open genuine / in place, Open of a body with a concurrently opened message's tag, bit flip), ONE Expander per kind, and their own states from xof.ID.New / k12.NewDraft10(shared context) / StateX4, every result compared with the sequentially computed reference. "
+            "non-trivial = a concurrent round; a checked Read/Sum whose lineage has >= 2 write chunks with a rate or 8192-byte boundary inside (or at the end of) a chunk, or a Clone/Reset in its lineage; "
             "a two-chunk sweep pair with 0 < split < length; a one-shot helper call on a message longer than one block; every permutation case; an expander call with an oversize DST or more than one output block; "
             "an Ascon case sealed/opened in place or appended to a non-empty dst, or an altered (key|nonce|ad|ct|tag) that was rejected. distinct by FNV-64 of the lineage's operation sequence (op kinds, lengths, data) resp. of the inputs",
     "assumptions": COMMON_ASSUME + [
         "ref/keccak (lane-level Keccak-p from FIPS 202, cross-checked at start-up against a bit-level Keccak-p, the Keccak-team ShortMsgKAT subset, x/crypto/sha3 and the RFC 9861 TurboSHAKE/KT128 vectors) defines TurboSHAKE and KangarooTwelve; circl's k12 package names draft -10, whose function is the KT128 of RFC 9861",
         "ref/ascon (table S-box, byte-level padding) validated on 429 NIST LWC KATs; ref/h2c validated on the RFC 9380 appendix K vectors",
         "BLAKE2X: circl wraps golang.org/x/crypto/blake2{b,s}, which is also the oracle, so only chunking/clone/reset independence is tested for it, not the BLAKE2X specification",
+        "the harness does not own the Go scheduler: the concurrent sub-check relies on the race detector (schedule-independent for unsynchronised writes) plus overlapping loops; an interleaving that needs one precise preemption point may be missed by the result comparison",
         "arm64 NEON two-way permutation cannot be executed on this machine (x2 runs the scalar fallback on amd64)",
     ],
     "budget": {"quick": 600, "thorough": 3000},
